@@ -158,6 +158,69 @@ func declaredFields(repo string, overlay map[string][]byte) map[string]bool {
 	return out
 }
 
+// localClosures: the function literals bound to a local variable where it is declared (`name := func(…) {…}`), per
+// enclosing function declaration.
+func localClosures(fd *ast.FuncDecl) map[*ast.Ident]*ast.FuncLit {
+	out := map[*ast.Ident]*ast.FuncLit{}
+	if fd.Body == nil {
+		return out
+	}
+	ast.Inspect(fd.Body, func(n ast.Node) bool {
+		switch x := n.(type) {
+		case *ast.AssignStmt:
+			if x.Tok == token.DEFINE && len(x.Lhs) == 1 && len(x.Rhs) == 1 {
+				if id, ok := x.Lhs[0].(*ast.Ident); ok && id.Name != "_" {
+					if lit, ok := x.Rhs[0].(*ast.FuncLit); ok {
+						out[id] = lit
+					}
+				}
+			}
+		case *ast.DeclStmt:
+			if gd, ok := x.Decl.(*ast.GenDecl); ok && gd.Tok == token.VAR {
+				for _, sp := range gd.Specs {
+					if vs, ok := sp.(*ast.ValueSpec); ok && len(vs.Names) == 1 && len(vs.Values) == 1 && vs.Names[0].Name != "_" {
+						if _, isFT := vs.Type.(*ast.FuncType); vs.Type != nil && !isFT {
+							continue
+						}
+						if lit, ok := vs.Values[0].(*ast.FuncLit); ok {
+							out[vs.Names[0]] = lit
+						}
+					}
+				}
+			}
+		}
+		return true
+	})
+	return out
+}
+
+func closureKey(relDir string, fd *ast.FuncDecl, name string) string {
+	return "closure:" + declKey(relDir, fd) + ":" + name
+}
+
+// declaredClosures: the named local closures of the module, as "closure:<function key>:<name>" (parse only). A
+// closure that is not listed was introduced by the change under analysis: a local helper, folded back into its
+// call sites before the rules look (normalizePackage).
+func declaredClosures(repo string, overlay map[string][]byte) map[string]bool {
+	out := map[string]bool{}
+	fset := token.NewFileSet()
+	for p, src := range moduleFiles(repo, overlay) {
+		f, err := parser.ParseFile(fset, p, src, parser.SkipObjectResolution)
+		if err != nil {
+			continue
+		}
+		rel, _ := filepath.Rel(repo, filepath.Dir(p))
+		for _, d := range f.Decls {
+			if fd, ok := d.(*ast.FuncDecl); ok {
+				for id := range localClosures(fd) {
+					out[closureKey(rel, fd, id.Name)] = true
+				}
+			}
+		}
+	}
+	return out
+}
+
 func loadInventory(path string) (map[string]bool, error) {
 	b, err := os.ReadFile(path)
 	if err != nil {
@@ -182,6 +245,10 @@ func writeInventory(repo, path string) error {
 		keys = append(keys, k)
 	}
 	keys = append(keys, "field:inventory-has-fields")
+	for k := range declaredClosures(repo, nil) {
+		keys = append(keys, k)
+	}
+	keys = append(keys, "closure:inventory-has-closures")
 	sort.Strings(keys)
 	head := "# functions of /repo known to the rule tables (sa -write-inventory). Calls of functions that are NOT listed\n# here are inlined before the analysis (normalize.go). Regenerate after a fix: commit in /repo.\n"
 	return os.WriteFile(path, []byte(head+strings.Join(keys, "\n")+"\n"), 0o644)
@@ -325,6 +392,13 @@ func normalize(repo string, pkgs []*packages.Package, overlay map[string][]byte,
 				if fd, ok := d.(*ast.FuncDecl); ok && fd.Name.Name != "init" && fd.Name.Name != "_" && !inventory[declKey(relDir, fd)] {
 					hasNew = true
 				}
+				if fd, ok := d.(*ast.FuncDecl); ok && inventory["closure:inventory-has-closures"] {
+					for id := range localClosures(fd) {
+						if !inventory[closureKey(relDir, fd, id.Name)] {
+							hasNew = true
+						}
+					}
+				}
 			}
 		}
 		if !hasNew {
@@ -402,6 +476,27 @@ func normalizePackage(repo, relDir string, p *packages.Package, imp types.Import
 				delete(res.Overlay, n)
 			}
 			return
+		}
+		// a local closure the change introduced (`add := func(seg string) { key += seg }` … `add(x)`) is folded
+		// back into its call sites first: each call becomes a call of the literal itself, which is then
+		// flattened like the literals the inliner leaves
+		if inventory["closure:inventory-has-closures"] {
+			if nsrc, desc, did := foldLocalClosure(np, relDir, inventory, src, names, failed); did {
+				trialOK := false
+				if _, err := checkPackage(p.PkgPath, p.Name, names, nsrc.src, imp); err == nil {
+					content, left := flattenNewLiterals(p, names, imp, src, nsrc.file, nsrc.src[names[nsrc.file]])
+					if !left {
+						src[names[nsrc.file]] = content
+						res.Inlined = append(res.Inlined, desc)
+						trialOK = true
+					}
+				}
+				if !trialOK {
+					failed[nsrc.key] = true
+					res.Skipped = append(res.Skipped, desc+": not possible here (call under && / ||, defer in the closure, a captured name shadowed at a call, …): closure kept")
+				}
+				continue
+			}
 		}
 		// new function declarations
 		decls := map[*types.Func]*ast.FuncDecl{}
@@ -1337,5 +1432,248 @@ func applyForwarders(np *npkg, fws []*forwarder, src map[string][]byte, names []
 		}
 		out.Write(bb[at:])
 		src[names[fi]] = out.Bytes()
+	}
+}
+
+
+// ---------------------------------------------------------------- local closures
+
+type foldResult struct {
+	src  map[string][]byte
+	file int
+	key  string
+}
+
+// foldLocalClosure picks one local closure that is not in the inventory and replaces every call of it by a call of
+// the literal (`name(a, b)` -> `func(p, q T) {…}(a, b)`), deleting the declaration. That is the same computation when
+//   - the variable is only ever called (never reassigned, passed on, compared, deferred or started as a goroutine),
+//   - the literal does not refer to the variable (no recursion), and
+//   - every name the literal takes from its surroundings means the same object at each call (nothing it captures is
+//     shadowed there): the literal captures variables by reference, so reading and writing them at the call site is
+//     what the closure did.
+func foldLocalClosure(np *npkg, relDir string, inventory map[string]bool, src map[string][]byte, names []string, failed map[string]bool) (*foldResult, string, bool) {
+	for fi, f := range np.files {
+		for _, d := range f.Decls {
+			fd, ok := d.(*ast.FuncDecl)
+			if !ok || fd.Body == nil {
+				continue
+			}
+			cls := localClosures(fd)
+			var ids []*ast.Ident
+			for id := range cls {
+				ids = append(ids, id)
+			}
+			sort.Slice(ids, func(i, j int) bool { return ids[i].Pos() < ids[j].Pos() })
+			for _, id := range ids {
+				lit := cls[id]
+				key := closureKey(relDir, fd, id.Name)
+				if inventory[key] || failed[key] {
+					continue
+				}
+				obj, _ := np.info.Defs[id].(*types.Var)
+				if obj == nil {
+					foldDebug(key, "no object")
+					continue
+				}
+				// the declaring statement
+				var declStmt ast.Node
+				// uses
+				parent := map[ast.Node]ast.Node{}
+				var stack []ast.Node
+				ast.Inspect(fd.Body, func(n ast.Node) bool {
+					if n == nil {
+						stack = stack[:len(stack)-1]
+						return false
+					}
+					if len(stack) > 0 {
+						parent[n] = stack[len(stack)-1]
+					}
+					stack = append(stack, n)
+					switch x := n.(type) {
+					case *ast.AssignStmt:
+						if len(x.Lhs) == 1 && x.Lhs[0] == ast.Expr(id) {
+							declStmt = x
+						}
+					case *ast.DeclStmt:
+						if x.Pos() <= id.Pos() && id.End() <= x.End() {
+							if gd, ok := x.Decl.(*ast.GenDecl); ok {
+								for _, sp := range gd.Specs {
+									if vs, ok := sp.(*ast.ValueSpec); ok && len(vs.Names) == 1 && vs.Names[0] == id {
+										if len(gd.Specs) == 1 {
+											declStmt = x
+										} else {
+											declStmt = vs // one line of a `var ( … )` group
+										}
+									}
+								}
+							}
+						}
+					}
+					return true
+				})
+				if declStmt == nil {
+					foldDebug(key, "declaring statement not found")
+					continue
+				}
+				okUses := true
+				var calls []*ast.CallExpr
+				ast.Inspect(fd.Body, func(n ast.Node) bool {
+					use, isId := n.(*ast.Ident)
+					if !isId || np.info.Uses[use] != types.Object(obj) {
+						return true
+					}
+					if use.Pos() >= lit.Pos() && use.End() <= lit.End() {
+						okUses = false // refers to itself
+						return true
+					}
+					c, isCall := parent[use].(*ast.CallExpr)
+					if !isCall || c.Fun != ast.Expr(use) || c.Ellipsis != token.NoPos {
+						okUses = false
+						return true
+					}
+					switch parent[c].(type) {
+					case *ast.GoStmt, *ast.DeferStmt:
+						okUses = false
+					}
+					calls = append(calls, c)
+					return true
+				})
+				if !okUses || len(calls) == 0 {
+					failed[key] = true
+					foldDebug(key, "not only called (or never called)")
+					continue
+				}
+				// plain parameters only
+				plain := true
+				if lit.Type.Params != nil {
+					for _, fld := range lit.Type.Params.List {
+						if _, variadic := fld.Type.(*ast.Ellipsis); variadic || len(fld.Names) == 0 {
+							plain = false
+						}
+					}
+				}
+				if lit.Type.Params != nil && lit.Type.Params.NumFields() > 0 && !plain {
+					failed[key] = true
+					foldDebug(key, "parameters not plain")
+					continue
+				}
+				// captured names mean the same thing at every call
+				same := true
+				ast.Inspect(lit, func(n ast.Node) bool {
+					use, isId := n.(*ast.Ident)
+					if !isId {
+						return true
+					}
+					o := np.info.Uses[use]
+					if o == nil || o.Pkg() == nil || o.Parent() == nil {
+						return true // universe, fields, methods
+					}
+					if _, isPkgName := o.(*types.PkgName); !isPkgName && o.Pkg() != np.tpkg {
+						return true // pkg.Name: reached through the import name, which is checked itself
+					}
+					if o.Pos() >= lit.Pos() && o.Pos() < lit.End() {
+						return true // declared inside the literal
+					}
+					if _, isPkgName := o.(*types.PkgName); isPkgName || o.Parent() == np.tpkg.Scope() {
+						// package-level names and imports: the same unless shadowed at the call
+					}
+					for _, c := range calls {
+						inner := np.tpkg.Scope().Innermost(c.Pos())
+						if inner == nil {
+							same = false
+							continue
+						}
+						if _, found := inner.LookupParent(use.Name, c.Pos()); found != o {
+							same = false
+						}
+					}
+					return true
+				})
+				if !same {
+					failed[key] = true
+					foldDebug(key, "a captured name is shadowed at a call")
+					continue
+				}
+				// rewrite: calls from the last to the first, then the declaration
+				b := src[names[fi]]
+				off := func(p token.Pos) int { return np.fset.Position(p).Offset }
+				litText := string(b[off(lit.Pos()):off(lit.End())])
+				type edit struct {
+					lo, hi int
+					text   string
+				}
+				var edits []edit
+				for _, c := range calls {
+					edits = append(edits, edit{off(c.Fun.Pos()), off(c.Fun.End()), litText})
+				}
+				edits = append(edits, edit{off(declStmt.Pos()), off(declStmt.End()), strings.Repeat("\n", strings.Count(string(b[off(declStmt.Pos()):off(declStmt.End())]), "\n"))})
+				sort.Slice(edits, func(i, j int) bool { return edits[i].lo > edits[j].lo })
+				// a call inside another call's arguments or inside the declaration would overlap: not handled
+				overlap := false
+				for i := 1; i < len(edits); i++ {
+					if edits[i].hi > edits[i-1].lo {
+						overlap = true
+					}
+				}
+				if overlap {
+					failed[key] = true
+					foldDebug(key, "overlapping calls")
+					continue
+				}
+				nb := append([]byte{}, b...)
+				for _, e := range edits {
+					nb = append(append(append([]byte{}, nb[:e.lo]...), []byte(e.text)...), nb[e.hi:]...)
+				}
+				out := map[string][]byte{}
+				for n, v := range src {
+					out[n] = v
+				}
+				out[names[fi]] = nb
+				return &foldResult{src: out, file: fi, key: key}, fmt.Sprintf("local closure %s of %s folded into its %d call(s)", id.Name, declKey(relDir, fd), len(calls)), true
+			}
+		}
+	}
+	return nil, "", false
+}
+
+// flattenNewLiterals flattens the literal calls of content that the file did not have before (src[names[file]]); it
+// reports whether one was left standing.
+func flattenNewLiterals(p *packages.Package, names []string, imp types.Importer, src map[string][]byte, file int, content []byte) ([]byte, bool) {
+	keep := map[string]bool{}
+	nBefore := 0
+	if f0, err := parser.ParseFile(token.NewFileSet(), "x.go", src[names[file]], 0); err == nil {
+		nBefore = len(findIIFEsAll(f0))
+		for _, c := range findIIFEs(f0) {
+			lo, hi := c.call.Pos()-f0.FileStart, c.call.End()-f0.FileStart
+			keep[string(src[names[file]][lo:hi])] = true
+		}
+	}
+	for k := 0; k < 16; k++ {
+		flatSerial++
+		nc, lit, did := flattenOne(content, keep, flatSerial)
+		if !did {
+			break
+		}
+		trial := map[string][]byte{}
+		for n, b := range src {
+			trial[n] = b
+		}
+		trial[names[file]] = nc
+		if _, err := checkPackage(p.PkgPath, p.Name, names, trial, imp); err != nil {
+			keep[lit] = true
+			continue
+		}
+		content = nc
+	}
+	left := true
+	if f1, err := parser.ParseFile(token.NewFileSet(), "x.go", content, 0); err == nil {
+		left = len(findIIFEsAll(f1)) > nBefore
+	}
+	return content, left
+}
+
+func foldDebug(key, why string) {
+	if os.Getenv("VERIF_DEBUG") == "fold" {
+		fmt.Fprintf(os.Stderr, "fold: %s: %s\n", key, why)
 	}
 }
